@@ -106,12 +106,13 @@ impl RefImage {
             }
             DrawOp::SetPixels { sx, sy, ex, ey, n: cnt, seed } => {
                 let ww = (*ex as u64 - *sx as u64) + 1;
+                let hh = (*ey as u64 - *sy as u64) + 1;
                 for k in 0..*cnt as u64 {
-                    let x = *sx as u64 + k % ww;
-                    let y = *sy as u64 + k / ww;
-                    if y > *ey as u64 {
-                        break;
-                    }
+                    // surplus colours wrap around inside the window (documented behaviour of set_pixels,
+                    // and what a MIPI-DCS write pointer does at the end of the window)
+                    let kk = k % (ww * hh);
+                    let x = *sx as u64 + kk % ww;
+                    let y = *sy as u64 + kk / ww;
                     if self.put(x as i64, y as i64, colour_of(*seed, k, bits)) {
                         n += 1;
                     }
